@@ -193,3 +193,26 @@ Definition hw_sites_expected : list hwsite :=
    (true, "_algorithm_setup", "_setup_smooth", "half_window", false, true);
    (true, "morphological", "rolling_ball", "smooth_half_window", true, true)]%string.
 Definition hw_sites_ok (t : list hwsite) : bool := hwsites_eqb t hw_sites_expected.
+
+(* ---- writes of fitter configuration attributes (_check_finite, _dtype, _sort_order, _inverted_order,
+   banded_solver, pentapy_solver and their private counterparts; on ANY receiver, also through
+   setattr / __dict__): allowed only in the constructors, the documented property setters, and the three
+   helpers that configure a FRESHLY built object.  No fitting method may change the configuration of an
+   object that outlives the call -- so a rejected or accepted call leaves the validation settings alone. *)
+Definition cfgwrite := (bool * string * string * string * string)%type.   (* 2-D?, module, function, attribute, receiver *)
+Definition str_in (x : string) (l : list string) : bool := existsb (String.eqb x) l.
+Definition cfg_allowed (w : cfgwrite) : bool :=
+  let '(td, m, fn, attr, recv) := w in
+  String.eqb m "_algorithm_setup" &&
+    ((String.eqb fn "__init__" && String.eqb recv "self")
+     || (String.eqb fn "banded_solver" && String.eqb recv "self"
+         && str_in attr ["_banded_solver"; "_pentapy_solver"]%string)
+     || (String.eqb fn "pentapy_solver" && String.eqb recv "self" && String.eqb attr "banded_solver")
+     || (String.eqb fn "_override_x" && String.eqb recv "new_object"
+         && str_in attr ["banded_solver"; "_sort_order"; "_inverted_order"]%string)
+     || (String.eqb fn "_get_function" && String.eqb recv "class_object" && String.eqb attr "banded_solver"))
+  || (td && String.eqb m "optimizers" && String.eqb fn "individual_axes" && String.eqb recv "fitter"
+      && String.eqb attr "banded_solver").
+Definition cfg_writes_ok (t : list cfgwrite) : bool := forallb cfg_allowed t.
+(* the writes outside the allowed places *)
+Definition cfg_violations (t : list cfgwrite) : list cfgwrite := filter (fun w => negb (cfg_allowed w)) t.
